@@ -273,6 +273,16 @@ Theorem C04_alloc_hvcc : forall p hs hl body, bounded (alloc_hvcc p hs hl body) 
 Proof. exact alloc_hvcc_bounded. Qed.
 Print Assumptions C04_alloc_hvcc.
 
+(* tlou / alou: 6-bit base count, 8-bit measurement counts, no exit on error: a constant bound *)
+Theorem C04_alloc_lou : forall hs hl body, bounded (alloc_lou hs hl body) 0 67284 1 16128 hs.
+Proof. exact alloc_lou_bounded. Qed.
+Print Assumptions C04_alloc_lou.
+
+(* avcC: 5-bit SPS count, 8-bit PPS count, every index checked: a constant bound *)
+Theorem C04_alloc_avcc : forall p hs hl body, bounded (alloc_avcc p hs hl body) 0 6912 1 286 hs.
+Proof. exact alloc_avcc_bounded. Qed.
+Print Assumptions C04_alloc_avcc.
+
 (* box level, both decode paths, EVERY byte string shorter than 32 GiB whose box type is one of the 21 modelled
    ones: header, size guard, prologue: at most 8 * len + 1048560 bytes requested, at most 2 * len + 65535 iterations *)
 Theorem C04_alloc_box_sr : forall bs, lenN bs < 34359738376 ->
